@@ -3,6 +3,8 @@ package syncreg
 import (
 	"context"
 	"fmt"
+	"os"
+	"path/filepath"
 	"runtime"
 	"sort"
 	"strings"
@@ -82,6 +84,13 @@ const (
 	leaveActive  = 3
 )
 
+// PreStartPlan describes a sync block taken before the adaptation is started.
+type PreStartPlan struct {
+	HoldMs   int  `json:"hold_ms"`
+	Create   bool `json:"create,omitempty"`
+	AddFirst bool `json:"add_first,omitempty"`
+}
+
 // C08Case is a plan of concurrent creations and registrations.
 type C08Case struct {
 	Pre int `json:"pre"` // containers in the runtime's store before anything starts
@@ -98,6 +107,12 @@ type C08Case struct {
 	// of another pod (an infra/pause container exposed under the sandbox id), or an id that
 	// is a prefix or an extension of one. Container ids are unique among containers, pod ids
 	// among pods; ids are never empty.
+	// PreStart, if set: a sync block is taken on the Adaptation before Start() (legal: the
+	// block is honoured once the listener is up) and released HoldMs milliseconds after Start()
+	// returned, by its own goroutine; with Create that goroutine makes one creation inside the
+	// block just before it releases it. Residents and planned plugins with After = 0 register
+	// while it is held. Only external plugins take part (Start() finds no pre-installed ones).
+	PreStart  *PreStartPlan `json:"pre_start,omitempty"`
 	Pods      []string      `json:"pods,omitempty"`
 	PreIDs    []string      `json:"pre_ids,omitempty"`
 	Residents []PluginPlan  `json:"residents"` // plugins registered and active before the creators start
@@ -255,6 +270,17 @@ func genC08(t *rapid.T) C08Case {
 				c.Creators[i].BigKB = rapid.IntRange(64, maxCtrKB).Draw(t, "big_kb")
 				c.Creators[i].BigN = rapid.IntRange(1, 3).Draw(t, "big_n")
 			}
+		}
+	}
+	// When the first block is taken relative to Start(): in a quarter of the plans before it.
+	if rapid.Bool().Draw(t, "pre_start") && rapid.Bool().Draw(t, "pre_start") {
+		c.PreStart = &PreStartPlan{
+			HoldMs:   rapid.IntRange(1, 40).Draw(t, "pre_hold_ms"),
+			Create:   rapid.Bool().Draw(t, "pre_create"),
+			AddFirst: rapid.Bool().Draw(t, "pre_add_first"),
+		}
+		if res == 0 {
+			c.Plugins[0].After = 0 // somebody registers while the block is held
 		}
 	}
 	// The identity alphabet: in half of the plans every plugin (residents included) draws its
@@ -440,10 +466,15 @@ func normalize(c C08Case) C08Case {
 		c.Residents[i].Leave, c.Residents[i].LeaveUs, c.Residents[i].InLong = 0, 0, false
 	}
 	c.Noise = clamp(c.Noise, 0, 4)
+	if c.PreStart != nil {
+		ps := *c.PreStart
+		ps.HoldMs = clamp(ps.HoldMs, 0, 3000)
+		c.PreStart = &ps
+	}
 	// ids: non-empty, bounded, unique within their own id space; defaults never collide with
 	// explicit ones (an explicit id that looks like a default one is dropped)
 	okID := func(id string) bool {
-		return id != "" && len(id) <= 64 && id != "final" && !strings.HasPrefix(id, "pre-") &&
+		return id != "" && len(id) <= 64 && id != "final" && id != "prestart" && !strings.HasPrefix(id, "pre-") &&
 			!(len(id) > 1 && id[0] == 'c' && id[1] >= '0' && id[1] <= '9' && strings.Contains(id, "-"))
 	}
 	seenPod := map[string]bool{}
@@ -646,6 +677,9 @@ type exec struct {
 	done          atomic.Int64 // creations completed (plan's clock for Start points)
 	progress      atomic.Int64
 	stopNoise     atomic.Bool
+	starting      atomic.Bool  // Adaptation.Start() is running (its SyncFn call is for pre-installed plugins: none)
+	preRec        *Creation    // the creation made inside the pre-start block (under mu)
+	tPreRel       atomic.Int64 // when the pre-start block was released (µs), 0 = not yet / none
 	reqTimeout    time.Duration
 	quickFails    []string     // registrations failed by the runtime although their synchronization was quick (under mu)
 	longStarted   atomic.Bool  // the first long block has been granted
@@ -713,6 +747,15 @@ func (x *exec) infraf(format string, a ...any) {
 // syncFn is the runtime's SyncFn: it snapshots the store under the store's own lock and
 // hands the snapshot to the NRI callback. It runs on the adaptation's accept goroutine.
 func (x *exec) syncFn(ctx context.Context, cb adaptation.SyncCB) error {
+	if x.starting.Load() {
+		// Start() synchronizes its pre-installed plugins (none here) under the adaptation lock,
+		// without the sync lock: not a registration, nothing to record or to judge.
+		x.storeMu.Lock()
+		snap := append([]*api.Container(nil), x.store...)
+		x.storeMu.Unlock()
+		_, err := cb(ctx, x.pods, snap)
+		return err
+	}
 	reg := &Reg{TEntry: x.now()}
 	x.inSync.Add(1)
 	reg.HeldEntry = x.held.Load()
@@ -1256,11 +1299,6 @@ func execute(c C08Case, attempt int) result {
 	for _, id := range podIDs {
 		x.pods = append(x.pods, &api.PodSandbox{Id: id, Name: "pod-" + id, Namespace: "ns", Uid: "uid-" + id})
 	}
-	r, err := fx.NewRuntime()
-	if err != nil {
-		return result{infra: "cannot start the adaptation: " + err.Error()}
-	}
-	x.r = r
 	for i := 0; i < c.Pre; i++ {
 		id := fmt.Sprintf("pre-%d", i)
 		kb := 0
@@ -1279,15 +1317,31 @@ func execute(c C08Case, attempt int) result {
 		x.plugs = append(x.plugs, x.newPlug(i, pp, false))
 	}
 	x.crecs = make([][]Creation, len(c.Creators))
-	// Adaptation.Start() has made its own SyncFn call (pre-installed plugins: none) through
-	// the fixture's default path; from now on every call belongs to an external plugin.
-	r.SyncFn = x.syncFn
 	cur.Store(x)
 	x.reqTimeout = pkgReqTimeout
 	if c.ReqTimeoutMs > 0 {
 		x.reqTimeout = time.Duration(c.ReqTimeoutMs) * time.Millisecond
 	}
 	adaptation.SetPluginRequestTimeout(x.reqTimeout)
+
+	// The adaptation is created here and started below, so that a plan can take its first
+	// sync block before Start() (fx.NewRuntime starts at once; fx.Runtime is only used for its
+	// Probe and Stop helpers).
+	dir := fx.ShortDir()
+	r := &fx.Runtime{Dir: dir, Socket: filepath.Join(dir, "nri.sock")}
+	a, err := adaptation.New("verif", "0.0", x.syncFn,
+		func(context.Context, []*api.ContainerUpdate) ([]*api.ContainerUpdate, error) { return nil, nil },
+		adaptation.WithSocketPath(r.Socket),
+		adaptation.WithPluginPath(filepath.Join(dir, "plugins")),
+		adaptation.WithPluginConfigPath(filepath.Join(dir, "conf.d")))
+	if err != nil {
+		os.RemoveAll(dir)
+		adaptation.SetPluginRequestTimeout(pkgReqTimeout)
+		cur.CompareAndSwap(x, nil)
+		return result{infra: "cannot create the adaptation: " + err.Error()}
+	}
+	r.A = a
+	x.r = r
 
 	hist := History{Attempt: attempt, Hooks: verifhook.Enabled}
 	stuck, stuckFor := false, time.Duration(0)
@@ -1331,6 +1385,65 @@ func execute(c C08Case, attempt int) result {
 		cur.CompareAndSwap(x, nil)
 	}
 	defer teardown()
+
+	// --- the first block may be taken before Start() ------------------------------------------
+	var pre *adaptation.PluginSyncBlock
+	if c.PreStart != nil {
+		pre = a.BlockPluginSync()
+		x.held.Add(1)
+	}
+	x.starting.Store(true)
+	err = a.Start()
+	x.starting.Store(false)
+	if err != nil {
+		if pre != nil {
+			x.held.Add(-1)
+			pre.Unblock()
+		}
+		return result{infra: "cannot start the adaptation: " + err.Error()}
+	}
+	preDone := make(chan struct{})
+	if pre == nil {
+		close(preDone)
+	} else {
+		go func() {
+			defer close(preDone)
+			time.Sleep(time.Duration(c.PreStart.HoldMs) * time.Millisecond)
+			if c.PreStart.Create {
+				// one creation the way the property prescribes, inside the block taken before Start()
+				id := "prestart"
+				pod := x.nextPod()
+				ctr := newCtr(id, pod.Id, 0)
+				rec := Creation{ID: id, Creator: -2, TReq: 0, TAcq: 0}
+				create := func() {
+					rec.TCall = x.now()
+					if _, err := a.CreateContainer(context.Background(), &api.CreateContainerRequest{Pod: pod, Container: ctr}); err != nil {
+						rec.Err = err.Error()
+						x.infraf("CreateContainer(%s) failed: %v", id, err)
+					}
+					rec.TRet = x.now()
+				}
+				if c.PreStart.AddFirst {
+					x.add(ctr)
+					rec.TAdd = x.now()
+					create()
+				} else {
+					create()
+					x.add(ctr)
+					rec.TAdd = x.now()
+				}
+				x.mu.Lock()
+				x.preRec = &rec
+				x.mu.Unlock()
+			}
+			if n := x.inSync.Load(); n != 0 {
+				x.finding("sync-at-release", "a plugin was being synchronized (SyncFn in progress) while the sync block taken before Start() was still held")
+			}
+			x.held.Add(-1)
+			pre.Unblock()
+			x.tPreRel.Store(x.now())
+		}()
+	}
 
 	// --- residents: registered one after the other, active before any creator starts -------
 	for _, pl := range x.plugs {
@@ -1391,6 +1504,16 @@ func execute(c C08Case, attempt int) result {
 				}
 			}
 		}
+	}
+	select { // the block taken before Start() is released by now (it lasts at most HoldMs after Start)
+	case <-preDone:
+		x.mu.Lock()
+		if x.preRec != nil {
+			x.crecs = append(x.crecs, []Creation{*x.preRec})
+		}
+		x.mu.Unlock()
+	case <-time.After(activeBound):
+		stuck, stuckFor = true, activeBound
 	}
 	hist.TLastRel = x.now()
 	tLast := time.Now()
@@ -1708,6 +1831,21 @@ func execute(c C08Case, attempt int) result {
 			classes = append(classes, "ids:prefix-related")
 		}
 	}
+	if c.PreStart != nil {
+		classes = append(classes, "prestart-block")
+		if rel := x.tPreRel.Load(); rel > 0 {
+			for _, rg := range regs {
+				// configured (Start returned) while the block taken before Start() was still held
+				if st := x.startedAt(rg.Plugin); st >= 0 && st < rel && rg.Err == "" {
+					classes = append(classes, "prestart-block,reg-while-held")
+					break
+				}
+			}
+		}
+		if c.PreStart.Create {
+			classes = append(classes, "prestart-block,creating")
+		}
+	}
 	if len(c.PreKB) > 0 {
 		dist := c.PreDist
 		if dist == "" {
@@ -1949,7 +2087,7 @@ func sweepCases() []C08Case {
 	idCr.FirstID = "sb"
 	multi := cr(true, 4, 2, 800)
 	multi.Unblocks, multi.Again, multi.Late = 3, 0, true
-	return []C08Case{
+	cases := []C08Case{
 		// one long block, one plugin registering behind it
 		{Pre: 2, Creators: []CreatorPlan{cr(true, 3, 1, 900)}, Plugins: []PluginPlan{pl(10)}, Delays: d(1), ReqTimeoutMs: 300},
 		// bookkeeping after the request; a second, ordinary creator; two plugins; a resident; noise
@@ -1974,9 +2112,17 @@ func sweepCases() []C08Case {
 		{Pre: 2, Residents: []PluginPlan{{Idx: 10, Name: "logger"}}, Creators: []CreatorPlan{cr(true, 8, 0, 0), cr(false, 6, 0, 0)},
 			Plugins: []PluginPlan{{Idx: 10, Name: "logger", After: 1}, {Idx: 10, Name: "tracer", After: 3}, {Idx: 20, Name: "logger", After: 5}, {Idx: 10, Name: "logger", After: 12}},
 			Noise:   1, Delays: d(5)},
-		// the default-sized timeout of the library (2 s) with a block of 2.5 s
-		{Creators: []CreatorPlan{cr(true, 2, 1, 2500)}, Plugins: []PluginPlan{pl(1)}, Delays: d(1), ReqTimeoutMs: 2000},
+		// the first block is taken before Start() and kept for 150 ms with a creation inside it,
+		// while a resident and a planned plugin register
+		{Pre: 1, PreStart: &PreStartPlan{HoldMs: 150, Create: true, AddFirst: true}, Residents: []PluginPlan{{Idx: 15}},
+			Creators: []CreatorPlan{cr(true, 6, 0, 0), cr(false, 6, 0, 0)}, Plugins: []PluginPlan{{Idx: 40, After: 0}, {Idx: 3, After: 7}}, Delays: d(3)},
+		{PreStart: &PreStartPlan{HoldMs: 100, Create: true}, Creators: []CreatorPlan{cr(false, 5, 0, 0)}, Plugins: []PluginPlan{{Idx: 8, After: 0}}, Delays: d(1)},
 	}
+	if ev.Thorough() {
+		// the default-sized timeout of the library (2 s) with a block of 2.5 s
+		cases = append(cases, C08Case{Creators: []CreatorPlan{cr(true, 2, 1, 2500)}, Plugins: []PluginPlan{pl(1)}, Delays: d(1), ReqTimeoutMs: 2000})
+	}
+	return cases
 }
 
 func TestExh_C08(t *testing.T) {
